@@ -93,7 +93,8 @@ class Explorer:
                     continue
                 for s in states:
                     s2 = s
-                    if self.branch is not None and len(blk.succ) > 1:
+                    if self.branch is not None and (len(blk.succ) > 1 or
+                                                    (blk.term and blk.term.get('k') == 'GotoStmt')):
                         s2 = self.branch(ctx, blk, idx, s)
                         if s2 is None:
                             continue
